@@ -57,7 +57,29 @@ def asserts(sc):
     # idempotence of a repeated request
     if prev is not None and sc.is_repeat:
         out.append((f'repeated {sc.last_kind} changes no table', A.db_unchanged(prev, db)))
+        # the re-sent create_batch / create_update must be ANSWERED like the original: same ids, no error (an error or a
+        # fresh id is what "a second batch / update" looks like in the one-batch model)
+        if sc.last_kind in ('dup_create_batch', 'u2_create') and sc.outcomes:
+            lab, outs = sc.outcomes[-1]
+            base = 'create_batch' if sc.last_kind == 'dup_create_batch' else lab
+            first = next((o for l, o in sc.outcomes[:-1] if l == base or l.endswith(base)), None)
+            key = 'id' if sc.last_kind == 'dup_create_batch' else 'update_id'
+            want = {_plain(o.value.get(key)) for o in (first or []) if o.exc is None and isinstance(o.value, dict)}
+            bad = []
+            for o in outs:
+                same = o.exc is None and isinstance(o.value, dict) and _plain(o.value.get(key)) in want
+                if not same:
+                    bad.append(z3.And(*o.pc) if o.pc else True)
+            expr = True if not bad else (False if any(b is True for b in bad) else z3.Not(z3.Or(*bad)))
+            out.append((f'repeated {sc.last_kind} is answered with the original {key} and without an error', expr))
     return out
+
+
+def _plain(v):
+    try:
+        return int(v)
+    except Exception:
+        return repr(v)
 
 
 def run(R):
